@@ -6,7 +6,7 @@ extern "C" {
 #define VS_MAX_THREADS 8
 #define VS_MAX_LOCKS 64
 #define VS_MAX_POINTS 8192
-enum vs_kind { VS_START = 0, VS_LOAD, VS_STORE, VS_RMW, VS_LOCK, VS_UNLOCK, VS_PAUSE, VS_YIELD, VS_EVENT };
+enum vs_kind { VS_START = 0, VS_LOAD, VS_STORE, VS_RMW, VS_LOCK, VS_UNLOCK, VS_PAUSE, VS_YIELD, VS_EVENT, VS_WAITFLAG /* blocked until *(int*)addr != 0 */ };
 enum vs_status { VS_RUNNING = 0, VS_OK, VS_DEADLOCK, VS_LIVELOCK, VS_HORIZON, VS_DIVERGED, VS_VIOLATION, VS_PANIC };
 struct vs_point_rec { unsigned char nenabled, cur_enabled, chosen, tid, kind; const void *addr; };
 struct vs_trace {
